@@ -3,6 +3,7 @@ package pchain
 import (
 	"bytes"
 	"fmt"
+	"math"
 	"testing"
 
 	"go.sia.tech/core/types"
@@ -38,7 +39,7 @@ type C04Case struct {
 	Steps []C04Step    `json:"steps"`
 }
 
-var c04Chunks = []int{1, 1, 2, 3, 7, 1000}
+var c04Chunks = []int{1, 1, 2, 3, 7, 1000, 1 << 40, math.MaxInt} // "in chunks of any size": the upper end of the domain too
 
 func genC04(t *rapid.T) C04Case {
 	cfg := kit.DefaultTreeGen()
@@ -492,7 +493,7 @@ func runC04(c C04Case, cs *kit.CaseStats) error {
 
 var c04Prop = kit.Prop[C04Case]{
 	ID:   "C04",
-	Rule: "histories as in C02 interleaved with polls of 1..6 subscribers (starting from nothing, or joining at a tip they 'previously reached') with chunk sizes 1, 2, 3, 7, 1000, some left behind on stale branches for many steps. Every poll result is checked as a path (reverts start at the subscriber's index, undo only off-chain blocks, each leads to the parent; applies continue from there along the best chain; never more than requested, never fewer unless the tip is reached) and as content: a shadow ledger folded only from the returned diffs and proof updates (the canonical apply/revert fold) must equal the reference ledger of the index reached after every single update - element sets, values, leaf indices and Merkle proof bytes. OnReorg must fire exactly once with the new tip per call that moved the tip and never otherwise - for the listener registered at the start and for up to 12 more that are registered and cancelled (any of them, not only the newest) while the history runs; a cancelled listener is never called again. At the end every subscriber must reach the tip by polling. Non-trivial = a poll result with reverts and applies, a chunk boundary inside a reorg path, or a subscriber >= 2 blocks deep on a stale branch.",
+	Rule: "histories as in C02 interleaved with polls of 1..6 subscribers (starting from nothing, or joining at a tip they 'previously reached') with chunk sizes 1, 2, 3, 7, 1000, 2^40 and MaxInt, some left behind on stale branches for many steps. Every poll result is checked as a path (reverts start at the subscriber's index, undo only off-chain blocks, each leads to the parent; applies continue from there along the best chain; never more than requested, never fewer unless the tip is reached) and as content: a shadow ledger folded only from the returned diffs and proof updates (the canonical apply/revert fold) must equal the reference ledger of the index reached after every single update - element sets, values, leaf indices and Merkle proof bytes. OnReorg must fire exactly once with the new tip per call that moved the tip and never otherwise - for the listener registered at the start and for up to 12 more that are registered and cancelled (any of them, not only the newest) while the history runs; a cancelled listener is never called again. At the end every subscriber must reach the tip by polling. Non-trivial = a poll result with reverts and applies, a chunk boundary inside a reorg path, or a subscriber >= 2 blocks deep on a stale branch.",
 	Assumptions: []string{
 		"subscriber start indices are the zero index or indices that subscriber reached earlier (never-applied fork blocks carry no supplement and are legitimately refused)",
 		"sequential mode: one goroutine submits and polls; callbacks are therefore ordered",
